@@ -92,9 +92,13 @@ static void dump_ring(){ fprintf(stderr,"--- last %d scheduling steps (thread op
 static void crash_handler(int sig){ fprintf(stderr,"*** signal %d in T%d at step %lu\n",sig,me,steps); void* bt[48]; int n=backtrace(bt,48); backtrace_symbols_fd(bt,n,2); dump_ring(); signal(sig,SIG_DFL); raise(sig); }
 static void finish(int status,const char*msg) __attribute__((noreturn));
 extern "C" void vf_ip_fail(const char*b) __attribute__((noreturn));
+static const char*(*stuck_fn)(void)=0;
+extern "C" void vf_on_stuck(const char*(*f)(void)){ stuck_fn=f; }
 static void finish(int status,const char*msg){
   if(inproc){ vf_ip_fail(msg?msg:status_name(status)); }
   if(status==R_HORIZON && liveness) { status=R_HANG; }
+  // a harness may label a stuck execution (deadlock / hang / livelock) that its reference model of a recorded known finding explains
+  if(stuck_fn && msg && (status==R_DEADLOCK||status==R_HANG||status==R_LIVELOCK)){ int sa=active; active=0; const char*l=stuck_fn(); active=sa; if(l){ static char b2[480]; snprintf(b2,sizeof b2,"%.200s [%.250s]",msg,l); msg=b2; } }
   if(verbose && status!=R_OKAY && status!=R_PRUNED) dump_ring();
   { uint64_t h=0; for(int i=0;i<nprefix&&i<ipoint;i++) h=mix(h,R->nen[i]); R->nenhash_at=h; }
   R->status=status; R->npoints=ipoint; R->steps=steps; R->evhash=evhash; R->nthreads=nth; R->cost=mycost;
